@@ -332,7 +332,8 @@ class CFG:
         bctx = _Ctx(exc=mk_exit(ctx.exc, "exc"),
                     ret=mk_exit(ctx.ret, "ret"),
                     brk=mk_exit(ctx.brk, "brk") if ctx.brk else None,
-                    cont=mk_exit(ctx.cont, "cont") if ctx.cont else None)
+                    cont=mk_exit(ctx.cont, "cont") if ctx.cont else None,
+                    rett=ctx.rett)
         bend = self._block(s.body, [(enter, "next")], bctx)
         if bend:
             x = self._new("with_exit", s, {"async": is_async, "how": "normal"})
@@ -368,7 +369,8 @@ class CFG:
 
         outer = _Ctx(exc=fin(ctx.exc, "exc"), ret=fin(ctx.ret, "ret"),
                      brk=fin(ctx.brk, "brk") if ctx.brk else None,
-                     cont=fin(ctx.cont, "cont") if ctx.cont else None)
+                     cont=fin(ctx.cont, "cont") if ctx.cont else None,
+                     rett=ctx.rett)
 
         if s.handlers:
             dcache = {}
